@@ -355,27 +355,39 @@ SLSQP_MESSAGES = {
   9: 'Iteration limit reached'}
 
 
-def random_model(rng, tier, kind=None, nmax=None):
+LIGHT = ['Device', 'PVDevice', 'CDevice', 'IDevice', 'IDevice2', 'GDevice']    # classes whose exact-rational model stays cheap at long horizons
+
+
+def random_model(rng, tier, kind=None, nmax=None, n=None, classes=None):
   """a leaf (40 %) or a tree description; every leaf convex."""
   nmax = nmax or (6 if tier == 'quick' else 8)
   kind = kind or ('leaf' if rng.random() < 0.4 else 'tree')
   if kind == 'leaf':
-    n = rng.randint(1, nmax)
-    return {'tree': leaf_tree(convex_leaf(rng, tier, n)), 'n': n}
-  t, n = solve_tree(rng, tier, n=rng.randint(1, nmax), mf=(True if kind == 'mf' else None))
+    n = n or rng.randint(1, nmax)
+    return {'tree': leaf_tree(convex_leaf(rng, tier, n, classes)), 'n': n}
+  t, n = solve_tree(rng, tier, n=n or rng.randint(1, nmax), mf=(True if kind == 'mf' else None) if classes is None else False, classes=classes,
+                    depth=None if classes is None else 1)
   return {'tree': t, 'n': n}
 
 
-def dyadic_flow(rng, m, mode=None):
-  """an in-box flat flow of the model as protocol strings."""
+def dyadic_flow(rng, m, mode=None, spread=None):
+  """an in-box flat flow of the model as protocol strings; `spread`: each entry additionally moved by a dyadic in
+  [-spread, spread] (a start point that need not respect the box)."""
   S = gen.tree_flow(rng, m['tree'], m['n'], mode)
-  return [x for row in S for x in row]
+  flat = [x for row in S for x in row]
+  if spread:
+    flat = [fs(F(x) + dy(rng, -spread, spread, 3)) for x in flat]
+  return flat
 
 
-def flow_arg(flat, m, shape):
-  """protocol flat flow -> ndarray, flat or device-shaped."""
+def flow_arg(flat, m, shape, order='C'):
+  """protocol flat flow (row-major) -> ndarray, flat or device-shaped; order 'F': the same matrix held in Fortran
+  (column-major) memory order, as `frame.values.T` is."""
   a = build.arr(flat)
-  return a.reshape(model_rows(m), m['n']) if shape == 'dev' else a
+  if shape != 'dev':
+    return a
+  a = a.reshape(model_rows(m), m['n'])
+  return np().asfortranarray(a) if order == 'F' else a
 
 
 def fake_result(res):
@@ -523,6 +535,8 @@ def history_model(rng, tier, nmax=4):
   -> (model description, edit).  The edit tightens / moves a's box and optionally gives it a cumulative bound."""
   import copy
   n = rng.randint(1, nmax)
+  if rng.random() < 0.3:
+    return sdevice_history(rng, tier, n)
   a = convex_leaf(rng, tier, n, [rng.choice(EDITABLE)], with_cbounds=False)
   a['_py']['bform'] = 'table'
   lb = [F(x) for x in a['lb']]; hb = [F(x) for x in a['hb']]
@@ -567,6 +581,31 @@ def history_model(rng, tier, nmax=4):
   return {'tree': t, 'n': n}, edit
 
 
+def sdevice_history(rng, tier, n):
+  """a storage leaf 'a' next to a two-way leaf; between the two calls its `reserve` / `start` / `capacity` / `c3` are changed through
+  the public setters (the storage constraints are functions of them)."""
+  n = max(n, 2)
+  a = convex_leaf(rng, tier, n, ['SDevice'], with_cbounds=False)
+  rate = dy(rng, 1, 3)
+  a['lb'] = [fs(-rate)]*n; a['hb'] = [fs(rate)]*n; a['_py']['bform'] = 'table'
+  a['prm'].update({'capacity': fs(dy(rng, 4, 10)), 'start': fs(dy(rng, Fraction(1, 4), Fraction(3, 4))), 'reserve': '0', 'efficiency': '1',
+                   'sustainment': '1', 'damage_depth': '0'})
+  o = convex_leaf(rng, tier, n, [rng.choice(['Device', 'IDevice2', 'CDevice'])], with_cbounds=False)
+  t = {'k': 'node', 'id': 'site', 'sb': None, 'sub': False, 'ch': [{'k': 'leaf', 'id': 'a', 'dev': a}, {'k': 'leaf', 'id': 'o', 'dev': o}]}
+  prm = {}
+  k = rng.choice(['reserve', 'reserve', 'start', 'capacity', 'c3'])
+  if k == 'reserve':
+    prm['reserve'] = fs(dy(rng, Fraction(1, 2), 1))        # the end-of-window charge must now stay high
+  elif k == 'start':
+    prm['start'] = fs(dy(rng, 0, 1))
+  elif k == 'capacity':
+    prm['capacity'] = fs(dy(rng, 1, 3))
+  else:
+    prm['c3'] = fs(dy(rng, 0, 2)); prm['damage_depth'] = '1/2'
+  edit = {'leaf': 'a', 'lb': list(a['lb']), 'hb': list(a['hb']), 'prm': prm}
+  return {'tree': t, 'n': n}, edit
+
+
 def edited_model(m, edit):
   """the description with the FINAL parameters of the edited leaf (what a fresh twin is built from)."""
   import copy
@@ -580,6 +619,8 @@ def edited_model(m, edit):
           d['cbs'] = [list(c) for c in edit['cbs']]; d['_py']['cform'] = '4tuples'
         if 'a' in edit:
           d['prm']['a'] = edit['a']
+        for k_, v_ in (edit.get('prm') or {}).items():
+          d['prm'][k_] = v_
       return
     for c in t.get('ch', []):
       walk(c)
@@ -608,6 +649,8 @@ def apply_edit(dev, edit):
     leaf.cbounds = [(C.pf(c[0]), C.pf(c[1]), int(c[2]), int(c[3])) for c in edit['cbs']]
   if 'a' in edit:
     leaf.a = C.pf(edit['a'])
+  for k_, v_ in (edit.get('prm') or {}).items():
+    setattr(leaf, k_, C.pf(v_))
 
 
 def touch(dev):
